@@ -299,6 +299,7 @@ impl <T: ArrayElement> ArrayAxis<T> for Array<T> {
                 .collect::<Vec<usize>>();
             let mut new_shape = self.get_shape()?;
             for &axis in &axes { self.axis_in_bounds(axis)?; }
+            axes.is_unique()?;
 
             if axes.iter().any(|a| new_shape[*a] != 1) {
                 Err(ArrayError::SqueezeShapeOfAxisMustBeOne)
